@@ -1,52 +1,24 @@
-"""Per-property configuration for ./check (levels, theorem modules, trusted base)."""
+"""Per-property configuration for ./check: one JSON file per claimed property in cfg/ (so that
+properties can be worked on independently).  Keys: props_module, harness_bin, driver, level,
+level_text, level_note, technique, trusted_base, assumptions, partial (theorems proved in _partial
+form with their guards), lean_pre (optional command run before the Lean build), explanation."""
+import json, os, glob
 
+HERE = os.path.dirname(os.path.abspath(__file__))
 KERNEL = "Lean 4.33 kernel; axioms allowed in property theorems: propext, Classical.choice, Quot.sound (audited with #print axioms on every run)"
 MODEL = "hand-written Lean model (lean/TrustfallModel/Model/*.lean) of the Rust algorithms; tied to /repo's working tree by the differential correspondence run of this check (sampled, generator-bounded)"
 HARNESS = "Rust harness (generators, canonicalisation, finite-f64 -> order-preserving integer key map, oracles); s-expression line protocol; Lean driver compiled from the same model definitions"
 
-PROPS = {
-    "C08": {
-        "props_module": "TrustfallModel.Props.C08",
-        "level": "proof",
-        "trusted_base": [KERNEL, MODEL, HARNESS,
-                         "floats: the model carries the order-preserving integer key of a finite f64 (±0 identified); non-finite floats are outside the model (the Rust code asserts finiteness)",
-                         "i64/u64 `cmp` and lossless `try_from` conversions are modelled as numeric comparison of `Int64.toInt` / `UInt64.toNat`"],
-        "assumptions": ["rustc's derived/primitive comparisons for i64, u64, f64 (finite), str, bool, slices behave as documented"],
-        "technique": "Lean 4 proof (order/equality laws by induction over nested values) + differential correspondence",
-        "level_text": "Machine-checked proof in Lean 4 that the model of FieldValue's PartialEq/PartialOrd is an equivalence and a total preorder agreeing with it and with numeric order across Int64/Uint64, for all values of any nesting; the model is tied to the current source by running every ordered pair of a boundary value set through the real `==`/`partial_cmp` and the compiled Lean definitions and diffing; the laws are also evaluated on the implementation's own answers over all triples to find a concrete failing input.",
-        "level_note": "Trusted: Lean kernel (axioms propext, Classical.choice, Quot.sound only), the hand-written model of value.rs, the harness and its float-key map. The model is validated against the code by sampling, not verified. Non-finite floats are outside the model.",
-    },
-}
+PROPS = {}
+for p in sorted(glob.glob(os.path.join(HERE, "cfg", "C*.json"))):
+    c = json.load(open(p))
+    PROPS[os.path.basename(p)[:-5]] = c
 
-HOOK_COMMITS = ["00c370b"]
+HOOK_COMMITS = [l.split()[0] for l in open(os.path.join(HERE, "cfg", "hook_commits.txt")) if l.strip()]
 
-# properties not yet claimed (work in progress; every one has a design in DESIGN.md §3)
+ALL_IDS = [json.loads(l)["id"] for l in open(os.path.join(HERE, "properties.jsonl"))]
+_reasons = json.load(open(os.path.join(HERE, "cfg", "not_claimed.json")))
 NOT_APPLICABLE = {
-    "C01": "not claimed yet: machinery for this property is still being built (design in DESIGN.md §3)",
-    "C02": "not claimed yet: machinery for this property is still being built (design in DESIGN.md §3)",
-    "C03": "not claimed yet: machinery for this property is still being built (design in DESIGN.md §3)",
-    "C04": "not claimed yet: machinery for this property is still being built (design in DESIGN.md §3)",
-    "C05": "not claimed yet: machinery for this property is still being built (design in DESIGN.md §3)",
-    "C06": "not claimed yet: machinery for this property is still being built (design in DESIGN.md §3)",
-    "C07": "not claimed yet: machinery for this property is still being built (design in DESIGN.md §3)",
-    "C09": "not claimed yet: machinery for this property is still being built (design in DESIGN.md §3)",
-    "C10": "not claimed yet: machinery for this property is still being built (design in DESIGN.md §3)",
-    "C11": "not claimed yet: machinery for this property is still being built (design in DESIGN.md §3)",
-    "C12": "not claimed yet: machinery for this property is still being built (design in DESIGN.md §3)",
-    "C13": "not claimed yet: machinery for this property is still being built (design in DESIGN.md §3)",
-    "C14": "not claimed yet: machinery for this property is still being built (design in DESIGN.md §3)",
-    "C15": "not claimed yet: machinery for this property is still being built (design in DESIGN.md §3)",
-    "C16": "not claimed yet: machinery for this property is still being built (design in DESIGN.md §3)",
-    "C17": "not claimed yet: machinery for this property is still being built (design in DESIGN.md §3)",
-    "C18": "not claimed yet: machinery for this property is still being built (design in DESIGN.md §3)",
-    "C19": "not claimed yet: machinery for this property is still being built (design in DESIGN.md §3)",
-    "C20": "not claimed yet: machinery for this property is still being built (design in DESIGN.md §3)",
-    "C21": "not claimed yet: machinery for this property is still being built (design in DESIGN.md §3)",
-    "C22": "not claimed yet: machinery for this property is still being built (design in DESIGN.md §3)",
-    "C23": "not claimed yet: machinery for this property is still being built (design in DESIGN.md §3)",
-    "C24": "not claimed yet: machinery for this property is still being built (design in DESIGN.md §3)",
-    "C25": "not claimed yet: machinery for this property is still being built (design in DESIGN.md §3)",
-    "C26": "not claimed yet: machinery for this property is still being built (design in DESIGN.md §3)",
-    "C27": "not claimed yet: machinery for this property is still being built (design in DESIGN.md §3)",
+    pid: _reasons.get(pid, "not claimed yet: machinery for this property is still being built (design in DESIGN.md §3)")
+    for pid in ALL_IDS if pid not in PROPS
 }
-
